@@ -1,5 +1,5 @@
 SPECIFICATION MCSpec
-CONSTANT Params <- StrParams
+CONSTANT Params <- StrParamsAll
 CONSTANT MkCase <- StrCase
 CONSTANT MaxStr = 3
 CONSTANT StrKinds = {"cmdline", "bootloader", "module"}
